@@ -323,6 +323,14 @@ def run(tier, seed, build):
                     if double_star(c): break
                     c = c02.gen_case(rng)
                 neutralise(rng, c)
+        if i == 11:     # once per run: a wildcard region written after a nested super-sequence (item list and flattened list then differ in length)
+            prog = pepper.sat_component(rng, name="prog", allow_zero=False)
+            prog["body"] += [["seq", "wa", [["nuc", [[4, "N"]]]], None], ["seq", "wb", [["nuc", [[3, "S"]]]], None],
+                             ["seq", "wab", [["ref", "wa", False], ["ref", "wb", False]], None],
+                             ["strand", False, "wT", [["ref", "wab", False], ["nuc", [["?", "N"]]], ["ref", "wa", True]], ["Some", 14]],
+                             ["struct", 1, "wTX", ["wT"], False, ["ext", [[14, "."]]]]]
+            c = {"files": {"prog.comp": pepper.comp_text(rng, prog)}, "entries": [["prog.comp", False, [], [prog["decl"], prog["body"]]]],
+                 "includes": [], "base": "prog", "args": [], "_prog": prog}
         forced_sig = None
         if i == 7:      # once per run: a system with a signal that ties at least two ports, fixed to a string that pins nothing
             for _ in range(600):
